@@ -598,6 +598,33 @@ def binding_selftest(vh, workdir):
 
 
 # ---------------------------------------------------------------------------------------------------------
+# the integer form of the commit rounding against the real function, on more values than the model checks
+
+COMMIT_LEVELS = [(1, 2), (1, 1), (3, 2), (2, 1), (3, 1), (4, 1)]      # the levels the configurations draw from
+
+
+def commit_conformance(vh, workdir, vmax):
+    inp = os.path.join(workdir, "commit-in.ndjson")
+    outp = os.path.join(workdir, "commit.ndjson")
+    with open(inp, "w") as fh:
+        for n, d in COMMIT_LEVELS:
+            for v in range(0, vmax + 1):
+                fh.write(json.dumps({"v": v, "n": n, "d": d}) + "\n")
+    rc, out = vlib.run([vh, "inventory", "commit", "-in", inp, "-out", outp], timeout=120)
+    if rc != 0:
+        raise vlib.Inconclusive("commit sweep failed: " + out[-1000:])
+    rows = sum(1 for _ in open(outp))
+    r = vlib.tlc(SPEC_DIR, "InventoryCommit", "InventoryCommit.cfg", workers=1, timeout=300,
+                 copy_files={"commit.ndjson": outp}, heap="2g", deadlock=False)
+    if not r.ok or r.distinct != rows + 1:
+        raise vlib.Inconclusive("commit sweep: TLC did not consume all rows: %s" % (r.error or r.out[-1500:]))
+    bad = [x for x in parse_printed(r.out) if x.get("kind") == "DRIFT"]
+    for x in bad[:5]:
+        vlib.log("DRIFT commit rounding: real %s, integer form %s" % (x["row"], x["spec"]))
+    return {"rows": rows, "levels": ["%d/%d" % l for l in COMMIT_LEVELS], "max_value": vmax, "mismatches": len(bad)}
+
+
+# ---------------------------------------------------------------------------------------------------------
 # coverage accounting from the recorded traces
 
 def account(trace_files):
@@ -675,6 +702,9 @@ def run(pid, tier, seed, replay_path):
     if not selftest["ok"]:
         raise vlib.Inconclusive("binding self-test failed: %s" % selftest)
 
+    commit = commit_conformance(vh, work, 20000 if tier == "thorough" else 2000)
+    vlib.log("[C12] commit rounding: %s" % commit)
+
     configs = []
     all_scripts = []
     states = transitions = 0
@@ -746,7 +776,7 @@ def run(pid, tier, seed, replay_path):
     vlib.log("[C12] J3 judged %d recorded lines as %d distinct recorded steps (%d prefix trees) in %.1fs" % (
         res["lines"], res["nodes"], res["trees"], time.time() - t1))
     violations = collect_violations(res)
-    drift = len(res["drift"])
+    drift = len(res["drift"]) + commit["mismatches"]
     for d in res["drift"][:5]:
         vlib.log("DRIFT node %d script %s: %s %s" % (d["node"], d["script"], d["ev"], json.dumps(d.get("detail"))[:600]))
     n_scripts, n_steps, classes, nontriv = account(trace_files)
@@ -775,6 +805,7 @@ def run(pid, tier, seed, replay_path):
         "action_outcome_classes": classes,
         "free_running": {"runs": f_scripts, "steps": f_steps, "classes": f_classes},
         "repo_tests_traced": repo_tests,
+        "commit_rounding_vs_real_function": commit,
         "seeds": [seed],
         "properties_judged": PROPS,
     }
